@@ -74,12 +74,16 @@ def make_project(name, strings, namespaces):
     variants = [[]] + [[u] for u in units] + [units, [units[0], units[0]], list(reversed(units)) + [units[0]]]
     fns, calls = [], []
     for vi, touches in enumerate(variants):
-        body = ["fn variant_%d() -> String {" % vi, "    let owner = Owner::new();", "    owner.with(|| {",
+        # every render has its own reactive owner, as every request has on a server; the owners are kept until the process ends:
+        # work that a render leaves behind must not find its signals disposed when the NEXT render of this process polls the executor
+        # (seen as a sporadic "reactive value ... has already been disposed" panic under load - interference between the renders of
+        # one probe process, not a property of one render)
+        body = ["fn variant_%d() -> String {" % vi, "    let owner = Owner::new();", "    let out = owner.with(|| {",
                 "        let v = view! { <I18nContextProvider enable_cookie=false ssr_lang_header_getter=leptos_i18n::context::UseLocalesOptions::default().ssr_lang_header_getter(|| None)>",
                 "            {move || { let i18n = use_i18n(); let mut views: Vec<AnyView> = vec![];"]
         for loc, ns in touches:
             body.append("                i18n.set_locale_untracked(Locale::%s); views.push((t!(i18n, %s))().into_any());" % (loc, key_of_unit[ns]))
-        body += ["                views }}", "        </I18nContextProvider> };", "        v.to_html()", "    })", "}"]
+        body += ["                views }}", "        </I18nContextProvider> };", "        v.to_html()", "    });", "    std::mem::forget(owner);", "    out", "}"]
         fns.append("\n".join(body))
         calls.append("    emit(%d, variant_%d);" % (vi, vi))
     main = MAIN.replace("__VARIANTS__", "\n\n".join(fns)).replace("__CALLS__", "\n".join(calls))
